@@ -15,8 +15,9 @@ def jobs(tier):
             note="depth <= 2 grammar plus depth-3 forms x all values x three sites"),
     ]
   return [
-      Job("enforce-l2", M, "h_enforce", dict(C02_LEVEL=2), shards=61, timeout=t, env=WR,
-          note="depth <= 2 grammar plus depth-3 forms x all values x three sites"),
+      Job("enforce-l3", M, "h_enforce", dict(C02_LEVEL=3), shards=97, timeout=t, env=WR,
+          note="level 2 plus a user Protocol, an int subclass, frozenset, 3-member unions, nested mappings, "
+               "Any/object element types (140 annotations x 64 values)"),
   ]
 
 
@@ -25,7 +26,7 @@ def validate(tier, cfg_dir):
   import os, subprocess, sys  # pylint: disable=g-import-not-at-top,multiple-imports
   from concurrent.futures import ThreadPoolExecutor  # pylint: disable=g-import-not-at-top
   runs = [(23, 5)] if tier == "quick" else [(8, r) for r in range(8)]
-  env = dict(os.environ, VERIF_CFG_DIR=cfg_dir, VERIF_PARAM_C02_LEVEL="2", PYTHONPATH="/verif",
+  env = dict(os.environ, VERIF_CFG_DIR=cfg_dir, VERIF_PARAM_C02_LEVEL=("2" if tier == "quick" else "3"), PYTHONPATH="/verif",
              VERIF_TIER=tier)
   for k in ("VERIF_KF_ONLY", "VERIF_KF_EXCLUDE", "VERIF_RECORD", "VERIF_TWIN"):
     env.pop(k, None)
@@ -71,7 +72,7 @@ def meta(tier):
           "pytype/errors/errors.py: bad_return_type, annotation_type_mismatch",
           "pytype/abstract/abstract_utils.py: get_views; typegraph queries (CanHaveCombination/HasCombination) run "
           "in the compiled extension on concrete graphs"],
-      "bounds": {j.name: dict(j.params, annotations="see harness/c02.py _grammar", values=49) for j in jobs(tier)},
+      "bounds": {j.name: dict(j.params, annotations="see harness/c02.py _grammar", values=(49 if tier == "quick" else 64)) for j in jobs(tier)},
       "outside": [
           "how the VM turns source into annotation/value objects beyond the one set-up run (annotation_utils, "
           "vm.py byte_* run untraced at set-up)",
